@@ -143,6 +143,11 @@ def multichar_family():
 
 def t_multichar(acc, L):
     for idx, spec in multichar_family():
+        try:
+            pda.build(spec, ('A', 'B', 'AB'), 's', '_')
+        except Exception:
+            acc.c['multichar_stack_symbols_rejected_by_the_constructor'] += 1      # a stricter constructor is not a violation
+            continue
         check(acc, spec, L, (5, 8), ('A', 'B', 'AB'), '_')
 
 
